@@ -333,11 +333,16 @@ impl Transaction {
     // #[cfg_attr(all(feature = "wasm-bindgen-transaction"), wasm_bindgen(js_name = setInput))]
     pub fn set_input(&mut self, index: usize, input: &TxIn) {
         self.inputs[index] = input.clone();
+        // Transaction has been changed, need to recalculate inputs hashes
+        self.hash_cache.hash_inputs = None;
+        self.hash_cache.hash_sequence = None;
     }
 
     // #[cfg_attr(all(feature = "wasm-bindgen-transaction"), wasm_bindgen(js_name = setOutput))]
     pub fn set_output(&mut self, index: usize, output: &TxOut) {
         self.outputs[index] = output.clone();
+        // Transaction has been changed, need to recalculate outputs hashes
+        self.hash_cache.hash_outputs = None;
     }
 
     pub fn is_coinbase_impl(&self) -> bool {
